@@ -162,7 +162,7 @@ impl World {
         if kind == "inv" && self.inputs.load(std::sync::atomic::Ordering::SeqCst) {
             if let Value::Object(map) = &mut fields {
                 let mut extra = Vec::new();
-                for key in ["name", "topic", "sub"] {
+                for key in ["name", "topic", "sub", "project"] {
                     if let Some(Value::String(s)) = map.get(key) {
                         let limited: Vec<String> = s.chars().take(600).map(|c| c.to_string()).collect();
                         extra.push((format!("{}_chars", key), json!(limited)));
